@@ -73,11 +73,28 @@ def chk_azimuthal(inp):
             return bad("azimuthal average leaves the [min, max] range of the image", numpy.asarray(avg).tolist(), [float(d.min()), float(d.max())])
 
 
+def crossing(x, y, frac, dia, what, data):
+    """the reported diameter is where the (non-decreasing, sampled) curve crosses `frac`: the curve is <= frac one sample before it and
+    >= frac one sample after it.  Requires that the energy inside the largest circle the function considers (the circle inscribed
+    in the image) reaches the fraction at all; otherwise no crossing exists on the image and the clause says nothing."""
+    N = data.shape[0]
+    ii = numpy.indices(data.shape) + 0.5 - N / 2
+    inscribed = float(data[(ii ** 2).sum(0) <= (N / 2.) ** 2].sum() / data.sum())
+    if frac > inscribed - 0.02:
+        return None
+    k = int(numpy.argmin(abs(numpy.asarray(x) - dia)))
+    if abs(x[k] - dia) > 1e-9:
+        return bad("reported diameter is not a point of the returned diameter axis (%s)" % what, float(dia))
+    lo, hi = y[max(k - 1, 0)], y[min(k + 1, len(y) - 1)]
+    if not (lo <= frac + 1e-12 and hi >= frac - 1e-12):
+        return bad("reported %g%% encircled-energy diameter %.4g is not where the curve crosses the fraction: the curve is %.4g there (%s)" % (100 * frac, dia, float(y[k]), what), float(y[k]), frac)
+
+
 def chk_encircled(inp):
     rng = numpy.random.default_rng(6)
     for size in (8, 16, 32, 64):
-        for kind in ("random", "spot"):
-            d = rng.random((size, size)) if kind == "random" else numpy.exp(-((numpy.indices((size, size)) - size / 2) ** 2).sum(0) / (0.02 * size ** 2))
+        for kind in ("random", "spot", "broad"):
+            d = rng.random((size, size)) if kind == "random" else numpy.exp(-((numpy.indices((size, size)) - size / 2) ** 2).sum(0) / ((0.02 if kind == "spot" else 0.16) * size ** 2))
             x, y = PSF.encircled_energy(d, eeDiameter=False)
             if abs(y[0]) > 1e-12 or numpy.any(numpy.diff(y) < -1e-12) or y.max() > 1 + 1e-12 or y.min() < -1e-12:
                 return bad("encircled-energy curve does not start at 0 / decreases / exceeds 1 (size %d, %s)" % (size, kind), numpy.asarray(y).tolist())
@@ -87,15 +104,13 @@ def chk_encircled(inp):
                 if abs(yc_[0]) > 1e-12 or abs(xc[0]) > 1e-12 or numpy.any(numpy.diff(yc_) < -1e-12) or yc_.max() > 1 + 1e-12 or yc_.min() < -1e-12:
                     return bad("encircled-energy curve about centre %s does not start at 0 / decreases / exceeds 1 (size %d, %s)" % (list(cen), size, kind), numpy.asarray(yc_).tolist()[:6])
                 for frac in (0.02, 0.5):
-                    dia = PSF.encircled_energy(d, fraction=frac, center=list(cen))
-                    k = int(numpy.argmin(abs(yc_ - frac)))
-                    if abs(dia - xc[k]) > 1e-12:
-                        return bad("reported diameter (centre %s) is not where the curve is closest to the requested fraction" % (list(cen),), float(dia), float(xc[k]))
+                    r = crossing(xc, yc_, frac, PSF.encircled_energy(d, fraction=frac, center=list(cen)), "size %d, %s, centre %s" % (size, kind, list(cen)), d)
+                    if r:
+                        return r
             for frac in (0.1, 0.3, 0.5, 0.8):
-                dia = PSF.encircled_energy(d, fraction=frac)
-                k = int(numpy.argmin(abs(y - frac)))
-                if abs(dia - x[k]) > 1e-12:
-                    return bad("reported diameter is not where the curve is closest to the requested fraction", float(dia), float(x[k]))
+                r = crossing(x, y, frac, PSF.encircled_energy(d, fraction=frac), "size %d, %s" % (size, kind), d)
+                if r:
+                    return r
 
 
 one = lambda t, s: [{}]
